@@ -177,6 +177,7 @@ pub fn gen_more(fam: &str, r: &mut rng::Rng, n: u64, x: &mut exec::Exec, sink: &
         "prefix" => gen_elf::prefix_family(r, n, x, sink, false),
         "prefixall" => gen_elf::prefix_family(r, n, x, sink, true),
         "locate" => gen_elf::locate_family(r, n, x, sink),
+        "entsize" => gen_elf::entsize_family(r, n, x, sink),
         "stream" => gen_elf::stream_family(r, n, x, sink, "plain"),
         "sfault" => gen_elf::stream_family(r, n, x, sink, "fault"),
         "sfaultall" => gen_elf::stream_family(r, n, x, sink, "faultall"),
